@@ -526,7 +526,8 @@ fn check_stream_recv(ex: &RefCell<Exec>, line: &str, n: usize, mems: &mut [Mem],
 /// in the way `advance_vec_to` needs?  (only used to pick the monitor signature)
 fn has_prefilled_gap(mems: &[Mem]) -> bool {
     let lens: Vec<(usize, usize)> = mems.iter().map(|m| (m.vis().len(), m.capn())).collect();
-    lens.iter().any(|(l, c)| *l > 0 && l < c) || lens.windows(2).any(|w| w[0].0 < w[0].1 && w[1].0 > 0)
+    lens.iter().any(|(l, c)| *l > 0 && l < c)
+        || (0..lens.len()).any(|i| lens[i].0 < lens[i].1 && lens[i + 1..].iter().any(|(l, _)| *l > 0))
 }
 
 /// pull from a `read_multi` stream until `pending` bytes arrived, the stream ended, or a hard error
@@ -551,10 +552,13 @@ async fn drain_multi<R: AsyncReadMulti + AsyncReadManaged<Buffer = compio_driver
                 ended = true;
                 break;
             }
-            Ok(Some(Ok(buf))) => got.extend_from_slice(&buf),
+            Ok(Some(Ok(buf))) => {
+                got.extend_from_slice(&buf);
+                errs = 0;
+            }
             Ok(Some(Err(e))) => {
                 errs += 1;
-                if e.kind() != io::ErrorKind::ResourceBusy || errs > 64 {
+                if e.kind() != io::ErrorKind::ResourceBusy || errs > 16 {
                     last_err = Some(err_str(&e));
                     break;
                 }
@@ -697,9 +701,881 @@ async fn lock_stream(case: &Case, tp: &str, ex: &RefCell<Exec>, caps: &RefCell<C
     out
 }
 
+
+// ---------------------------------------------------------------------------------------------
+// lockstep datagram cases
+
+async fn dgram_pair(tp: &str, tos: bool) -> (UdpSocket, UdpSocket, Option<std::net::SocketAddr>, Option<std::net::SocketAddr>) {
+    match tp {
+        "udp" => {
+            let a = UdpSocket::bind("127.0.0.1:0").await.expect("bind udp");
+            let b = UdpSocket::bind("127.0.0.1:0").await.expect("bind udp");
+            let aa = a.local_addr().unwrap();
+            let ba = b.local_addr().unwrap();
+            a.connect(ba).await.expect("connect udp");
+            b.connect(aa).await.expect("connect udp");
+            if tos {
+                for s in [&a, &b] {
+                    let on: libc::c_int = 1;
+                    let r = unsafe {
+                        libc::setsockopt(s.as_raw_fd(), libc::IPPROTO_IP, libc::IP_RECVTOS, &on as *const _ as *const libc::c_void, 4)
+                    };
+                    assert_eq!(r, 0, "IP_RECVTOS");
+                }
+            }
+            (a, b, Some(aa), Some(ba))
+        }
+        "udg" => {
+            let mut fds = [0 as RawFd; 2];
+            let r = unsafe { libc::socketpair(libc::AF_UNIX, libc::SOCK_DGRAM | libc::SOCK_NONBLOCK | libc::SOCK_CLOEXEC, 0, fds.as_mut_ptr()) };
+            assert_eq!(r, 0, "socketpair");
+            let a = unsafe { UdpSocket::from_raw_fd(fds[0]) };
+            let b = unsafe { UdpSocket::from_raw_fd(fds[1]) };
+            (a, b, None, None)
+        }
+        _ => panic!("bad datagram transport {tp}"),
+    }
+}
+
+struct DgramWorld {
+    socks: [UdpSocket; 2],
+    addrs: [Option<std::net::SocketAddr>; 2],
+    /// datagrams sent by peer d and not yet received by the other
+    queue: [VecDeque<Vec<u8>>; 2],
+}
+
+fn from_name(w: &DgramWorld, addr: Option<std::net::SocketAddr>) -> &'static str {
+    match addr {
+        None => "-",
+        Some(a) if Some(a) == w.addrs[0] => "a",
+        Some(a) if Some(a) == w.addrs[1] => "b",
+        Some(_) => "?",
+    }
+}
+
+/// oracle for one received datagram: `data` is the prefix of the next sent datagram cut to `cap`,
+/// never longer than `cap`; source and truncation flag (when reported) are right
+#[allow(clippy::too_many_arguments)]
+fn check_dgram(ex: &RefCell<Exec>, line: &str, w: &mut DgramWorld, d: usize, drv: &str, kind: &str, data: &[u8], cap: usize, from: Option<&str>, trunc: Option<bool>) {
+    let Some(sent) = w.queue[d].pop_front() else {
+        ex.borrow_mut().fail("C14:dgram-mismatch", format!("{line}: received a datagram but none was in flight"));
+        return;
+    };
+    if data.len() > cap {
+        ex.borrow_mut().fail("C14:dgram-over-capacity", format!("{line}: {} bytes delivered into {cap} bytes of room", data.len()));
+    }
+    let k = sent.len().min(cap);
+    if data != &sent[..k] {
+        let sig = if drv == "poll" && (kind == "frommulti" || kind == "msgmulti") && data.is_empty() {
+            "F140:poll-multi-empty-data"
+        } else {
+            "C14:dgram-mismatch"
+        };
+        ex.borrow_mut().fail(sig, format!("{line}: received {} for datagram {} (room {cap})", hex(data), hex(&sent)));
+    }
+    if let Some(f) = from {
+        let want = if w.addrs[d].is_some() { ["a", "b"][d] } else { "-" };
+        if f != want {
+            ex.borrow_mut().fail("C14:dgram-mismatch", format!("{line}: source {f}, expected {want}"));
+        }
+    }
+    if let Some(t) = trunc {
+        if t != (sent.len() > cap) {
+            ex.borrow_mut().fail("C14:dgram-mismatch", format!("{line}: truncated flag {t} for a {}-byte datagram into {cap} bytes", sent.len()));
+        }
+        if t {
+            ex.borrow_mut().tag("truncated");
+        }
+    }
+}
+
+async fn zc_done<T: PartialEq, F: std::future::Future<Output = T>>(r: BufResult<usize, F>, copy: T, ex: &RefCell<Exec>) -> io::Result<usize> {
+    let BufResult(res, fut) = r;
+    let back = fut.await;
+    if back != copy {
+        ex.borrow_mut().fail("C14:zc-buffer-changed", "zero-copy datagram send returned a different buffer");
+    }
+    res
+}
+
+async fn dsend(sock: &UdpSocket, to: Option<std::net::SocketAddr>, kind: &str, chunks: Vec<Vec<u8>>, ex: &RefCell<Exec>, caps: &RefCell<Caps>) -> io::Result<usize> {
+    let one = chunks.concat();
+    let dest = to.unwrap_or_else(|| "127.0.0.1:9".parse().unwrap());
+    let r = match kind {
+        "plain" => sock.send(one).await.0,
+        "vec" => sock.send_vectored(chunks.clone()).await.0,
+        "to" => sock.send_to(one, dest).await.0,
+        "tovec" => sock.send_to_vectored(chunks.clone(), dest).await.0,
+        "msg" => sock.send_msg(one, Vec::<u8>::new(), dest).await.0,
+        "msgvec" => sock.send_msg_vectored(chunks.clone(), Vec::<u8>::new(), dest).await.0,
+        "zc" => zc_done(sock.send_zerocopy(one.clone()).await, one.clone(), ex).await,
+        "zcvec" => zc_done(sock.send_zerocopy_vectored(chunks.clone()).await, chunks.clone(), ex).await,
+        "tozc" => zc_done(sock.send_to_zerocopy(one.clone(), dest).await, one.clone(), ex).await,
+        "tozcvec" => zc_done(sock.send_to_zerocopy_vectored(chunks.clone(), dest).await, chunks.clone(), ex).await,
+        "msgzc" => zc_done(sock.send_msg_zerocopy(one.clone(), Vec::<u8>::new(), dest).await, (one.clone(), Vec::<u8>::new()), ex).await,
+        "msgzcvec" => zc_done(sock.send_msg_zerocopy_vectored(chunks.clone(), Vec::<u8>::new(), dest).await, (chunks.clone(), Vec::<u8>::new()), ex).await,
+        other => panic!("bad datagram send kind {other}"),
+    };
+    match r {
+        Err(e) if kind.contains("zc") && is_unsupported(&e) => {
+            caps.borrow_mut().zc_unsupported = true;
+            // fall back to the copying flavour so that the rest of the case keeps its meaning
+            sock.send(chunks.concat()).await.0
+        }
+        r => r,
+    }
+}
+
+async fn lock_dgram(case: &Case, tp: &str, drv: &str, buflen: usize, tos: bool, ex: &RefCell<Exec>, caps: &RefCell<Caps>) -> Vec<String> {
+    let (a, b, aa, ba) = dgram_pair(tp, tos).await;
+    let mut w = DgramWorld { socks: [a, b], addrs: [aa, ba], queue: [VecDeque::new(), VecDeque::new()] };
+    let mut out = vec!["ok".to_string()];
+    for line in &case.lines[1..] {
+        let f: Vec<&str> = line.split_whitespace().collect();
+        let p = pidx(f[1]);
+        let d = 1 - p;
+        let o = match f[0] {
+            "dsend" => {
+                let chunks = parse_chunks(f[3]);
+                let flat = chunks.concat();
+                ex.borrow_mut().tag(format!("dsend-{}", f[2]));
+                match dsend(&w.socks[p], w.addrs[1 - p], f[2], chunks, ex, caps).await {
+                    Ok(n) => {
+                        if n != flat.len() {
+                            ex.borrow_mut().fail("C14:dgram-mismatch", format!("{line}: send reported {n} of {} bytes", flat.len()));
+                        }
+                        w.queue[p].push_back(flat);
+                        format!("sent {n}")
+                    }
+                    Err(e) => err_str(&e),
+                }
+            }
+            _ if w.queue[d].is_empty() => "idle".to_string(),
+            "drecv" => {
+                if !readable(w.socks[p].as_raw_fd(), 3000) {
+                    ex.borrow_mut().fail("C14:dgram-mismatch", format!("{line}: datagram sent but never arrived"));
+                }
+                let kind = f[2];
+                let mut mems = parse_shapes(f[3]);
+                let cap: usize = mem_caps(&mems).iter().sum();
+                ex.borrow_mut().tag(format!("drecv-{kind}"));
+                let sock = &w.socks[p];
+                type R = io::Result<(usize, Vec<Mem>, Option<std::net::SocketAddr>, Option<(usize, usize, u32)>)>;
+                let r: R = match kind {
+                    "plain" => {
+                        let BufResult(r, m) = sock.recv(mems.pop().unwrap()).await;
+                        r.map(|n| (n, vec![m], None, None))
+                    }
+                    "vec" => {
+                        let BufResult(r, m) = sock.recv_vectored(mems).await;
+                        r.map(|n| (n, m, None, None))
+                    }
+                    "from" => {
+                        let BufResult(r, m) = sock.recv_from(mems.pop().unwrap()).await;
+                        r.map(|(n, a)| (n, vec![m], Some(a), None))
+                    }
+                    "fromvec" => {
+                        let BufResult(r, m) = sock.recv_from_vectored(mems).await;
+                        r.map(|(n, a)| (n, m, Some(a), None))
+                    }
+                    "msg" => {
+                        let BufResult(r, (m, c)) = sock.recv_msg(mems.pop().unwrap(), AncillaryBuf::<64>::new()).await;
+                        r.map(|(n, cl, a, fl)| (n, vec![m], Some(a), Some((cl, c.as_init().len(), fl.bits() as u32))))
+                    }
+                    "msgvec" => {
+                        let BufResult(r, (m, c)) = sock.recv_msg_vectored(mems, AncillaryBuf::<64>::new()).await;
+                        r.map(|(n, cl, a, fl)| (n, m, Some(a), Some((cl, c.as_init().len(), fl.bits() as u32))))
+                    }
+                    other => panic!("bad datagram recv kind {other}"),
+                };
+                match r {
+                    Ok((n, mems, from, ctl)) => {
+                        // what the caller reads back: the first min(cap_i, remaining) visible bytes of each member
+                        let mut data = vec![];
+                        let mut left = n;
+                        for m in &mems {
+                            if left == 0 {
+                                break;
+                            }
+                            let k = m.capn().min(left);
+                            data.extend_from_slice(&m.vis()[..k.min(m.vis().len())]);
+                            left -= k;
+                        }
+                        let fname = from.map(|a| from_name(&w, Some(a)));
+                        let gap = kind.contains("vec") && has_prefilled_gap(&parse_shapes(f[3]));
+                        if gap && data.len() < n {
+                            // finding F141 (recorded for streams as well): the received bytes are hidden
+                            w.queue[d].pop_front();
+                            ex.borrow_mut().fail("F141:recv-vectored-prefilled", format!("{line}: n={n} caller sees [{}]", show_mems(&mems)));
+                        } else {
+                            check_dgram(ex, line, &mut w, d, drv, kind, &data, cap, fname, ctl.map(|c| c.2 & MSG_TRUNC != 0));
+                            if n != data.len() {
+                                ex.borrow_mut().fail("C14:dgram-mismatch", format!("{line}: n={n} but {} bytes visible", data.len()));
+                            }
+                        }
+                        let mut o = format!("n={n} {}", show_mems(&mems));
+                        if let Some(fname) = fname {
+                            o.push_str(&format!(" from={fname}"));
+                        }
+                        if let Some((cl, cv, fl)) = ctl {
+                            o.push_str(&format!(" ctl={cl}:{cv} flags={}", flag_str(fl)));
+                        }
+                        o
+                    }
+                    Err(e) => err_str(&e),
+                }
+            }
+            "drecvm" => {
+                readable(w.socks[p].as_raw_fd(), 3000);
+                let kind = f[2];
+                let len: usize = f[3].parse().unwrap();
+                let cap = if len == 0 { buflen } else { len.min(buflen) };
+                ex.borrow_mut().tag(format!("drecv-{kind}"));
+                let sock = &w.socks[p];
+                type R = io::Result<Option<(Vec<u8>, Option<std::net::SocketAddr>, Option<(usize, u32)>)>>;
+                let r: R = match kind {
+                    "managed" => sock.recv_managed(len).await.map(|o| o.map(|b| (b.to_vec(), None, None))),
+                    "frommanaged" => sock.recv_from_managed(len).await.map(|o| o.map(|(b, a)| (b.to_vec(), Some(a), None))),
+                    "msgmanaged" => sock
+                        .recv_msg_managed(len, AncillaryBuf::<64>::new())
+                        .await
+                        .map(|o| o.map(|(b, c, a, fl)| (b.to_vec(), Some(a), Some((c.as_init().len(), fl.bits() as u32))))),
+                    other => panic!("bad managed datagram kind {other}"),
+                };
+                match r {
+                    Ok(Some((data, from, ctl))) => {
+                        let fname = from.map(|a| from_name(&w, Some(a)));
+                        check_dgram(ex, line, &mut w, d, drv, kind, &data, cap, fname, ctl.map(|c| c.1 & MSG_TRUNC != 0));
+                        let mut o = format!("some {}", hex(&data));
+                        if let Some(fname) = fname {
+                            o.push_str(&format!(" from={fname}"));
+                        }
+                        if let Some((cv, fl)) = ctl {
+                            o.push_str(&format!(" ctl={cv} flags={}", flag_str(fl)));
+                        }
+                        o
+                    }
+                    Ok(None) => {
+                        // the kernel returned 0: an empty datagram is reported as `None`
+                        match w.queue[d].pop_front() {
+                            Some(s) if s.is_empty() || cap == 0 => {}
+                            other => ex.borrow_mut().fail("C14:dgram-mismatch", format!("{line}: Ok(None) for datagram {:?}", other.map(|s| hex(&s)))),
+                        }
+                        "none".into()
+                    }
+                    Err(e) => err_str(&e),
+                }
+            }
+            "dmulti" => {
+                readable(w.socks[p].as_raw_fd(), 3000);
+                let kind = f[2];
+                let clen: usize = f[3].parse().unwrap();
+                let count = w.queue[d].len();
+                ex.borrow_mut().tag(format!("drecv-{kind}"));
+                // (data, from, flags, ancillary length)
+                let mut items: Vec<(Vec<u8>, Option<&'static str>, Option<u32>, Option<usize>)> = vec![];
+                let mut last_err: Option<String> = None;
+                {
+                    let sock = &w.socks[p];
+                    let mut errs = 0;
+                    macro_rules! drain {
+                        ($stream:expr, $conv:expr) => {{
+                            let mut s = std::pin::pin!($stream);
+                            while items.len() < count {
+                                match compio_runtime::time::timeout(Duration::from_secs(3), s.next()).await {
+                                    Err(_) => {
+                                        last_err = Some("err:timeout".into());
+                                        break;
+                                    }
+                                    Ok(None) => {
+                                        last_err = Some("end".into());
+                                        break;
+                                    }
+                                    Ok(Some(Ok(it))) => {
+                                        errs = 0;
+                                        #[allow(clippy::redundant_closure_call)]
+                                        items.push($conv(it));
+                                    }
+                                    Ok(Some(Err(e))) => {
+                                        errs += 1;
+                                        if e.kind() != io::ErrorKind::ResourceBusy || errs > 16 {
+                                            last_err = Some(err_str(&e));
+                                            break;
+                                        }
+                                        ex.borrow_mut().tag("multi-enobufs");
+                                    }
+                                }
+                            }
+                        }};
+                    }
+                    match kind {
+                        "multi" => drain!(sock.recv_multi(0), |b: compio_driver::BufferRef| (b.to_vec(), None, None, None)),
+                        "frommulti" => drain!(sock.recv_from_multi(), |r: compio_driver::op::RecvFromMultiResult| (
+                            r.data().to_vec(),
+                            Some(from_name(&w, r.addr().and_then(|a| a.as_socket()))),
+                            None,
+                            None
+                        )),
+                        "msgmulti" => drain!(sock.recv_msg_multi(clen), |r: compio_driver::op::RecvMsgMultiResult| (
+                            r.data().to_vec(),
+                            Some(from_name(&w, r.addr().and_then(|a| a.as_socket()))),
+                            Some(r.flags().bits() as u32),
+                            Some(r.ancillary().len())
+                        )),
+                        other => panic!("bad multishot datagram kind {other}"),
+                    }
+                }
+                let cap = match (kind, drv) {
+                    ("multi", _) => buflen,
+                    (_, "uring") => buflen.saturating_sub(16 + 128 + clen),
+                    _ => buflen,
+                };
+                let mut shown = vec![];
+                for (data, from, fl, anc) in &items {
+                    check_dgram(ex, line, &mut w, d, drv, kind, data, cap, *from, fl.map(|f| f & MSG_TRUNC != 0));
+                    let mut o = hex(data);
+                    if let Some(f) = from {
+                        o.push_str(&format!("/{f}"));
+                    }
+                    if let Some(fl) = fl {
+                        o.push_str(&format!("/{}", flag_str(*fl)));
+                    }
+                    if let Some(a) = anc {
+                        o.push_str(&format!("/ctl={a}"));
+                    }
+                    shown.push(o);
+                }
+                if items.len() < count && last_err.is_none() {
+                    ex.borrow_mut().fail("C14:dgram-mismatch", format!("{line}: {} of {count} datagrams delivered", items.len()));
+                }
+                match last_err {
+                    Some(e) => format!("{} {e}", shown.join(";")),
+                    None => shown.join(";"),
+                }
+            }
+            other => panic!("bad lockstep datagram op {other}"),
+        };
+        out.push(o);
+    }
+    out
+}
+
+// ---------------------------------------------------------------------------------------------
+// concurrent stream cases
+
+fn gen_byte(seed: u64, d: u64, i: u64) -> u8 {
+    ((i * 31 + (i / 256) * 7 + seed + d * 101) % 256) as u8
+}
+
+fn gen_range(seed: u64, d: u64, from: u64, n: usize) -> Vec<u8> {
+    (0..n as u64).map(|k| gen_byte(seed, d, from + k)).collect()
+}
+
+fn fnv(h: &mut u64, bs: &[u8]) {
+    for b in bs {
+        *h ^= *b as u64;
+        *h = h.wrapping_mul(0x0000_0100_0000_01b3);
+    }
+}
+
+/// `kind:n+n+..` items separated by `,`; `-` = nothing
+fn parse_spec(s: &str) -> Vec<(String, Vec<usize>)> {
+    if s == "-" {
+        return vec![];
+    }
+    s.split(',')
+        .map(|it| {
+            let (k, ns) = it.split_once(':').expect("spec item");
+            (k.to_string(), ns.split('+').map(|n| n.parse().expect("size")).collect())
+        })
+        .collect()
+}
+
+struct RxSummary {
+    len: u64,
+    hash: u64,
+    eof: bool,
+    bad_at: Option<u64>,
+    err: Option<String>,
+}
+
+async fn conc_writer(w: Rc<S>, spec: Vec<(String, Vec<usize>)>, seed: u64, d: u64, ex: Rc<RefCell<Exec>>, caps: Rc<RefCell<Caps>>) -> Result<u64, String> {
+    let mut off = 0u64;
+    for (kind, sizes) in spec {
+        let chunks: Vec<Vec<u8>> = sizes
+            .iter()
+            .map(|n| {
+                let c = gen_range(seed, d, off, *n);
+                off += *n as u64;
+                c
+            })
+            .collect();
+        ex.borrow_mut().tag(format!("csend-{kind}"));
+        let total: usize = chunks.iter().map(|c| c.len()).sum();
+        match send_all(&w, &kind, chunks, &ex, &caps).await {
+            Ok(n) if n == total => {}
+            Ok(n) => return Err(format!("send {kind} delivered {n} of {total}")),
+            Err(e) => return Err(err_str(&e)),
+        }
+    }
+    let r = on!(&*w, s => { let mut s = s; s.shutdown().await });
+    r.map_err(|e| err_str(&e))?;
+    Ok(off)
+}
+
+async fn conc_reader(r: Rc<S>, spec: Vec<(String, Vec<usize>)>, seed: u64, d: u64, ex: Rc<RefCell<Exec>>) -> RxSummary {
+    let mut sum = RxSummary { len: 0, hash: 0xcbf2_9ce4_8422_2325, eof: false, bad_at: None, err: None };
+    let mut i = 0usize;
+    if spec.is_empty() {
+        return sum;
+    }
+    fn feed(sum: &mut RxSummary, seed: u64, d: u64, data: &[u8]) {
+        for (k, b) in data.iter().enumerate() {
+            if sum.bad_at.is_none() && *b != gen_byte(seed, d, sum.len + k as u64) {
+                sum.bad_at = Some(sum.len + k as u64);
+            }
+        }
+        fnv(&mut sum.hash, data);
+        sum.len += data.len() as u64;
+    }
+    loop {
+        let (kind, sizes) = &spec[i % spec.len()];
+        i += 1;
+        ex.borrow_mut().tag(format!("crecv-{kind}"));
+        match kind.as_str() {
+            "managed" => {
+                let res = on!(&*r, s => { let mut s = s; s.read_managed(sizes[0]).await });
+                match res {
+                    Ok(Some(b)) => feed(&mut sum, seed, d, &b),
+                    Ok(None) => {
+                        sum.eof = true;
+                        return sum;
+                    }
+                    Err(e) => {
+                        sum.err = Some(err_str(&e));
+                        return sum;
+                    }
+                }
+            }
+            "multi" => {
+                // drains to the end of the stream
+                let mut errs = 0;
+                let len = sizes[0];
+                macro_rules! run {
+                    ($s:expr) => {{
+                        let mut s = $s;
+                        let mut st = std::pin::pin!(s.read_multi(len));
+                        loop {
+                            match st.next().await {
+                                None => {
+                                    sum.eof = true;
+                                    break;
+                                }
+                                Some(Ok(b)) => {
+                                    errs = 0;
+                                    feed(&mut sum, seed, d, &b)
+                                }
+                                Some(Err(e)) => {
+                                    errs += 1;
+                                    if e.kind() != io::ErrorKind::ResourceBusy || errs > 2000 {
+                                        sum.err = Some(err_str(&e));
+                                        break;
+                                    }
+                                    // the pool is shared with the other reader: let it run and hand buffers back
+                                    compio_runtime::time::sleep(Duration::from_micros(200)).await;
+                                }
+                            }
+                        }
+                    }};
+                }
+                match &*r {
+                    S::Tcp(s) => run!(s),
+                    S::Unix(s) => run!(s),
+                }
+                return sum;
+            }
+            _ => {
+                let mems: Vec<Mem> = sizes.iter().map(|c| Mem::V(Vec::with_capacity(*c))).collect();
+                match recv_once(&r, kind, mems).await {
+                    Ok(o) => {
+                        if o.n == 0 {
+                            sum.eof = true;
+                            return sum;
+                        }
+                        let data: Vec<u8> = o.mems.iter().flat_map(|m| m.vis().iter().copied()).collect();
+                        if data.len() != o.n {
+                            ex.borrow_mut().fail("C14:stream-mismatch", format!("{kind} reported n={} but {} bytes are visible", o.n, data.len()));
+                        }
+                        feed(&mut sum, seed, d, &data);
+                    }
+                    Err(e) => {
+                        sum.err = Some(err_str(&e));
+                        return sum;
+                    }
+                }
+            }
+        }
+    }
+}
+
+async fn conc_case(line: &str, ex: Rc<RefCell<Exec>>, caps: Rc<RefCell<Caps>>) -> String {
+    let f: Vec<&str> = line.split_whitespace().collect();
+    let tp = f[1];
+    let seed: u64 = f[5].parse().unwrap();
+    let split = f[6] == "split";
+    let get = |k: &str| parse_spec(f.iter().find_map(|x| x.strip_prefix(k)).expect("spec"));
+    let (sa, sb, ra, rb) = (get("SA="), get("SB="), get("RA="), get("RB="));
+    let (a, b) = stream_pair(tp).await;
+    let (mut pa, mut pb) = (Peer::Whole(a), Peer::Whole(b));
+    if split {
+        pa.split();
+        pb.split();
+    }
+    fn halves(p: Peer) -> (Rc<S>, Rc<S>) {
+        match p {
+            Peer::Whole(s) => {
+                let s = Rc::new(s);
+                (s.clone(), s)
+            }
+            Peer::Split(r, w) => (Rc::new(r), Rc::new(w)),
+            Peer::Gone => unreachable!(),
+        }
+    }
+    let (ar, aw) = halves(pa);
+    let (br, bw) = halves(pb);
+    let wa = compio_runtime::spawn(conc_writer(aw, sa, seed, 0, ex.clone(), caps.clone()));
+    let wb = compio_runtime::spawn(conc_writer(bw, sb, seed, 1, ex.clone(), caps.clone()));
+    let rbt = compio_runtime::spawn(conc_reader(br, rb, seed, 0, ex.clone()));
+    let rat = compio_runtime::spawn(conc_reader(ar, ra, seed, 1, ex.clone()));
+    let all = async { (wa.await, wb.await, rbt.await, rat.await) };
+    let Ok((wa, wb, rb, ra)) = compio_runtime::time::timeout(Duration::from_secs(30), all).await else {
+        ex.borrow_mut().fail("C14:eof-missing", format!("{line}: transfer did not finish within 30 s"));
+        return "timeout".into();
+    };
+    let mut parts = vec![];
+    for (name, w, r) in [("a>b", wa, rb), ("b>a", wb, ra)] {
+        let sent = match w {
+            Ok(Ok(n)) => n,
+            Ok(Err(e)) => {
+                ex.borrow_mut().fail("C14:stream-mismatch", format!("{line}: {name} writer failed: {e}"));
+                0
+            }
+            Err(_) => {
+                ex.borrow_mut().fail("C14:panic", format!("{line}: {name} writer panicked"));
+                0
+            }
+        };
+        let Ok(r) = r else {
+            ex.borrow_mut().fail("C14:panic", format!("{line}: {name} reader panicked"));
+            parts.push(format!("{name} panic"));
+            continue;
+        };
+        if let Some(e) = &r.err {
+            ex.borrow_mut().fail("C14:stream-mismatch", format!("{line}: {name} reader failed: {e}"));
+        }
+        if let Some(at) = r.bad_at {
+            ex.borrow_mut().fail("C14:stream-mismatch", format!("{line}: {name} byte {at} differs from what was sent"));
+        }
+        // a reader with an empty spec does not read at all
+        let reads = r.len > 0 || r.eof || r.err.is_some();
+        if reads && r.len != sent {
+            ex.borrow_mut().fail("C14:stream-mismatch", format!("{line}: {name} received {} of {sent} bytes", r.len));
+        }
+        if reads && !r.eof && r.err.is_none() {
+            ex.borrow_mut().fail("C14:eof-missing", format!("{line}: {name} no end of stream after shutdown"));
+        }
+        parts.push(format!("{name} {} {:016x}{}", r.len, r.hash, if r.eof { " eof" } else { "" }));
+    }
+    parts.join(" | ")
+}
+
+// ---------------------------------------------------------------------------------------------
+// accept / incoming
+
+enum Listener {
+    Tcp(TcpListener, std::net::SocketAddr),
+    Unix(UnixListener, String),
+}
+
+async fn listener(tp: &str) -> Listener {
+    match tp {
+        "tcp" => {
+            let l = TcpListener::bind("127.0.0.1:0").await.expect("bind");
+            let a = l.local_addr().unwrap();
+            Listener::Tcp(l, a)
+        }
+        _ => {
+            let p = sock_path();
+            Listener::Unix(UnixListener::bind(&p).await.expect("bind unix"), p)
+        }
+    }
+}
+
+async fn read_id(s: &S) -> io::Result<u8> {
+    let BufResult(r, b) = on!(s, x => { let mut x = x; x.read(Vec::with_capacity(1)).await });
+    match r? {
+        1 => Ok(b[0]),
+        _ => Err(io::Error::new(io::ErrorKind::UnexpectedEof, "no id byte")),
+    }
+}
+
+async fn accept_case(line: &str, ex: Rc<RefCell<Exec>>) -> String {
+    let f: Vec<&str> = line.split_whitespace().collect();
+    let (tp, drv, mode) = (f[1], f[2], f[3]);
+    let k: usize = f[4].parse().unwrap();
+    let extra: usize = f[5].parse().unwrap();
+    let base = open_fds();
+    let mut ids: Vec<u8> = vec![];
+    let mut closed = 0usize;
+    {
+        let l = listener(tp).await;
+        // all clients connect first (the backlog holds them), each announces its id
+        let mut clients: Vec<S> = vec![];
+        for i in 0..k + extra {
+            let c = match &l {
+                Listener::Tcp(_, a) => S::Tcp(TcpStream::connect(*a).await.expect("connect")),
+                Listener::Unix(_, p) => S::Unix(UnixStream::connect(p).await.expect("connect unix")),
+            };
+            let r = on!(&c, x => { let mut x = x; x.write(vec![i as u8]).await.0 });
+            r.expect("id byte");
+            clients.push(c);
+        }
+        let mut conns: Vec<S> = vec![];
+        match mode {
+            "single" => {
+                for _ in 0..k {
+                    let c = match &l {
+                        Listener::Tcp(l, _) => S::Tcp(l.accept().await.expect("accept").0),
+                        Listener::Unix(l, _) => S::Unix(l.accept().await.expect("accept").0),
+                    };
+                    conns.push(c);
+                }
+            }
+            "incoming" => {
+                match &l {
+                    Listener::Tcp(l, _) => {
+                        let mut inc = l.incoming();
+                        for _ in 0..k {
+                            match compio_runtime::time::timeout(Duration::from_secs(3), inc.next()).await {
+                                Ok(Some(Ok(c))) => conns.push(S::Tcp(c)),
+                                other => {
+                                    ex.borrow_mut().fail("C14:accept-dup-or-missing", format!("{line}: incoming yielded {:?}", other.map(|o| o.map(|r| r.map(|_| ())))));
+                                    break;
+                                }
+                            }
+                        }
+                    }
+                    Listener::Unix(l, _) => {
+                        let mut inc = l.incoming();
+                        for _ in 0..k {
+                            match compio_runtime::time::timeout(Duration::from_secs(3), inc.next()).await {
+                                Ok(Some(Ok(c))) => conns.push(S::Unix(c)),
+                                other => {
+                                    ex.borrow_mut().fail("C14:accept-dup-or-missing", format!("{line}: incoming yielded {:?}", other.map(|o| o.map(|r| r.map(|_| ())))));
+                                    break;
+                                }
+                            }
+                        }
+                    }
+                }
+                // the stream is dropped here: the multishot accept is cancelled
+            }
+            other => panic!("bad accept mode {other}"),
+        }
+        for c in &conns {
+            match read_id(c).await {
+                Ok(id) => ids.push(id),
+                Err(e) => ex.borrow_mut().fail("C14:accept-dup-or-missing", format!("{line}: accepted connection carries no id: {e}")),
+            }
+        }
+        // let the driver finish the cancelled accept
+        compio_runtime::time::sleep(Duration::from_millis(8)).await;
+        // listener + yielded connections + client ends must be all that is open
+        let now = open_fds();
+        let expect = base + 1 + conns.len() + clients.len();
+        if now != expect {
+            ex.borrow_mut().fail("C14:fd-leak", format!("{line}: {now} descriptors open while listener, {} yielded and {} client sockets are alive (expected {expect})", conns.len(), clients.len()));
+        }
+        // which of the never-yielded connections were closed by compio (the client sees end of stream / reset)?
+        for c in &clients[k..] {
+            let r = compio_runtime::time::timeout(Duration::from_millis(25), async {
+                on!(c, x => { let mut x = x; x.read(Vec::with_capacity(1)).await.0 })
+            })
+            .await;
+            match r {
+                Ok(Ok(0)) | Ok(Err(_)) => closed += 1,
+                Ok(Ok(_)) => ex.borrow_mut().fail("C14:stream-mismatch", format!("{line}: a client received bytes nobody sent")),
+                Err(_) => {}
+            }
+        }
+        if let Listener::Unix(_, p) = &l {
+            let _ = std::fs::remove_file(p);
+        }
+    }
+    compio_runtime::time::sleep(Duration::from_millis(5)).await;
+    let end = open_fds();
+    if end != base {
+        ex.borrow_mut().fail("C14:fd-leak", format!("{line}: {end} descriptors open after everything was dropped, {base} before"));
+    }
+    let mut sorted = ids.clone();
+    sorted.sort();
+    let want: Vec<u8> = (0..k as u8).collect();
+    if sorted != want {
+        ex.borrow_mut().fail("C14:accept-dup-or-missing", format!("{line}: accepted ids {ids:?}, expected each of {want:?} once"));
+    }
+    let _ = drv;
+    format!("ids={} closed={closed}", sorted.iter().map(|i| i.to_string()).collect::<Vec<_>>().join(","))
+}
+
+// ---------------------------------------------------------------------------------------------
+// `RecvMsgMultiResult::new` and its accessors on crafted buffers (real parsing code)
+
+fn rmo_case(case: &Case, ex: &Rc<RefCell<Exec>>) -> Vec<String> {
+    let first: Vec<&str> = case.lines[0].split_whitespace().collect();
+    let buflen: usize = first[1].parse().unwrap();
+    // the polling driver's pool can hand out buffers (`pop`); the io_uring result type is constructed explicitly
+    let rt = build_rt("poll", 2, buflen);
+    let pool = rt.buffer_pool().expect("pool");
+    let mut out = vec!["ok".to_string()];
+    for line in &case.lines[1..] {
+        let f: Vec<&str> = line.split_whitespace().collect();
+        let clen: usize = f[1].parse().unwrap();
+        let bytes = unhex(f[2]);
+        assert!(bytes.len() <= buflen);
+        let mut buf = pool.pop().expect("pop");
+        {
+            let dst = buf.as_uninit();
+            for (d, b) in dst.iter_mut().zip(&bytes) {
+                d.write(*b);
+            }
+        }
+        unsafe { SetLen::set_len(&mut buf, bytes.len()) };
+        let namelen = if bytes.len() >= 4 { u32::from_le_bytes([bytes[0], bytes[1], bytes[2], bytes[3]]) as usize } else { 0 };
+        let r = catch(move || unsafe { compio_driver::op::RecvMsgMultiResult::new(buf, clen) });
+        let o = match r {
+            Err(_) => {
+                ex.borrow_mut().tag("rmo-new-panic");
+                "new=panic".to_string()
+            }
+            Ok(res) => {
+                ex.borrow_mut().tag("rmo-new-ok");
+                let data = match catch(|| res.data().to_vec()) {
+                    Ok(d) => {
+                        // in bounds: data is a suffix of what was put into the buffer
+                        if d.len() > bytes.len() || bytes[bytes.len() - d.len()..] != d[..] {
+                            ex.borrow_mut().fail("C14:rmo-out-of-bounds", format!("{line}: data() is not a slice of the buffer"));
+                        }
+                        hex(&d)
+                    }
+                    Err(_) => "panic".into(),
+                };
+                let anc = match catch(|| res.ancillary().to_vec()) {
+                    Ok(a) => {
+                        if 144 + a.len() > bytes.len() || bytes[144..144 + a.len()] != a[..] {
+                            ex.borrow_mut().fail("C14:rmo-out-of-bounds", format!("{line}: ancillary() is not a slice of the buffer"));
+                        }
+                        hex(&a)
+                    }
+                    Err(_) => "panic".into(),
+                };
+                let addr = if namelen > 128 {
+                    // `addr()` would copy beyond the 128-byte storage: not executed
+                    ex.borrow_mut().tag("rmo-namelen-unchecked");
+                    "ub".to_string()
+                } else {
+                    match catch(|| res.addr().map(|a| unsafe { std::slice::from_raw_parts(a.as_ptr() as *const u8, a.len() as usize).to_vec() })) {
+                        Ok(None) => "-".into(),
+                        Ok(Some(a)) => hex(&a),
+                        Err(_) => "panic".into(),
+                    }
+                };
+                format!("data={data} anc={anc} addr={addr} flags={}", res.flags().bits())
+            }
+        };
+        out.push(o);
+    }
+    out
+}
+
+// ---------------------------------------------------------------------------------------------
+// the stream adapter under real kernel events
+
+async fn ms_case(line: &str, ex: Rc<RefCell<Exec>>) -> String {
+    use compio_runtime::StreamExt as _;
+    let f: Vec<&str> = line.split_whitespace().collect();
+    let tp = f[1];
+    let len: usize = f[5].parse().unwrap();
+    let (a, b) = stream_pair(tp).await;
+    let ct = compio_runtime::CancelToken::new();
+    let mut toks: Vec<String> = vec![];
+    let mut held: Vec<compio_driver::BufferRef> = vec![];
+    let mut hold = false;
+    let mut sent: VecDeque<u8> = VecDeque::new();
+    macro_rules! run {
+        ($b:expr) => {{
+            let mut rd = $b;
+            let mut st = std::pin::pin!(rd.read_multi(len).with_cancel(ct.clone()));
+            for ev in f[6].split(',') {
+                match ev.as_bytes()[0] {
+                    b'd' => {
+                        let data = unhex(&ev[1..]);
+                        sent.extend(data.iter().copied());
+                        let r = on!(&a, x => { let mut x = x; x.write(data).await.0 });
+                        r.expect("ms send");
+                        compio_runtime::time::sleep(Duration::from_millis(2)).await;
+                    }
+                    b's' => {
+                        let r = on!(&a, x => { let mut x = x; x.shutdown().await });
+                        r.expect("ms shutdown");
+                        compio_runtime::time::sleep(Duration::from_millis(2)).await;
+                    }
+                    b'c' => {
+                        ct.clone().cancel();
+                        compio_runtime::time::sleep(Duration::from_millis(2)).await;
+                    }
+                    b'h' => hold = true,
+                    b'r' => {
+                        hold = false;
+                        held.clear();
+                    }
+                    b'n' | b'p' => {
+                        let wait = if ev.as_bytes()[0] == b'n' { 2000 } else { 30 };
+                        let t = match compio_runtime::time::timeout(Duration::from_millis(wait), st.next()).await {
+                            Err(_) => "pending".to_string(),
+                            Ok(None) => "end".to_string(),
+                            Ok(Some(Err(e))) => err_str(&e),
+                            Ok(Some(Ok(buf))) => {
+                                let got = buf.to_vec();
+                                let exp: Vec<u8> = sent.iter().take(got.len()).copied().collect();
+                                if exp != got {
+                                    ex.borrow_mut().fail("C14:stream-mismatch", format!("{line}: multishot item {} but the peer sent {}", hex(&got), hex(&exp)));
+                                }
+                                let k = got.len().min(sent.len());
+                                sent.drain(..k);
+                                if hold {
+                                    held.push(buf);
+                                }
+                                format!("item:{}", hex(&got))
+                            }
+                        };
+                        toks.push(t);
+                    }
+                    other => panic!("bad ms event {}", other as char),
+                }
+            }
+        }};
+    }
+    match &b {
+        S::Tcp(s) => run!(s),
+        S::Unix(s) => run!(s),
+    }
+    drop(held);
+    toks.join(" ")
+}
+
 fn exec(case: &Case) -> Exec {
-    let ex = RefCell::new(Exec::new());
-    let caps = RefCell::new(Caps::default());
+    let ex = Rc::new(RefCell::new(Exec::new()));
+    let caps = Rc::new(RefCell::new(Caps::default()));
     let first: Vec<&str> = case.lines[0].split_whitespace().collect();
     let out = match first[0] {
         "open" => {
@@ -712,6 +1588,7 @@ fn exec(case: &Case) -> Exec {
                 rt.block_on(async {
                     match tp {
                         "tcp" | "unix" => lock_stream(case, tp, &ex, &caps).await,
+                        "udp" | "udg" => lock_dgram(case, tp, drv, buflen, first.get(5) == Some(&"tos"), &ex, &caps).await,
                         _ => panic!("bad transport {tp}"),
                     }
                 })
@@ -724,12 +1601,53 @@ fn exec(case: &Case) -> Exec {
                 }
             }
         }
+        "conc" => {
+            let (tp, drv) = (first[1], first[2]);
+            ex.borrow_mut().tag(format!("conc-{tp}-{drv}"));
+            let rt = build_rt(drv, first[3].parse().unwrap(), first[4].parse().unwrap());
+            let r = catch(|| rt.block_on(conc_case(&case.lines[0], ex.clone(), caps.clone())));
+            match r {
+                Ok(o) => vec![o],
+                Err(p) => {
+                    ex.borrow_mut().fail("C14:panic", format!("panic: {p}"));
+                    vec!["panic".into()]
+                }
+            }
+        }
+        "accept" => {
+            let (tp, drv) = (first[1], first[2]);
+            ex.borrow_mut().tag(format!("accept-{tp}-{drv}-{}", first[3]));
+            let rt = build_rt(drv, 2, 64);
+            match catch(|| rt.block_on(accept_case(&case.lines[0], ex.clone()))) {
+                Ok(o) => vec![o],
+                Err(p) => {
+                    ex.borrow_mut().fail("C14:panic", format!("panic: {p}"));
+                    vec!["panic".into()]
+                }
+            }
+        }
+        "rmopen" => {
+            ex.borrow_mut().tag("rmo");
+            rmo_case(case, &ex)
+        }
+        "ms" => {
+            let (tp, drv) = (first[1], first[2]);
+            ex.borrow_mut().tag(format!("ms-{tp}-{drv}"));
+            let rt = build_rt(drv, first[3].parse().unwrap(), first[4].parse().unwrap());
+            match catch(|| rt.block_on(ms_case(&case.lines[0], ex.clone()))) {
+                Ok(o) => vec![o],
+                Err(p) => {
+                    ex.borrow_mut().fail("C14:panic", format!("panic: {p}"));
+                    vec!["panic".into()]
+                }
+            }
+        }
         other => panic!("bad case family {other}"),
     };
     if caps.borrow().zc_unsupported {
-        ex.borrow_mut().tag("zerocopy-unsupported");
+        ex.borrow_mut().tag(format!("zerocopy-unsupported-{}", first[1]));
     }
-    let mut ex = ex.into_inner();
+    let mut ex = std::mem::take(&mut *ex.borrow_mut());
     ex.nontrivial = out.iter().any(|o| o.starts_with("n=") || o.starts_with("some") || o.contains(' '));
     ex.out = out;
     ex
@@ -838,17 +1756,285 @@ fn gen_lock_stream(rng: &mut Rng, idx: usize, tp: &str, drv: &str) -> Case {
     Case { name: format!("lock-{tp}-{drv}-{idx}"), lines }
 }
 
+fn gen_lock_dgram(rng: &mut Rng, idx: usize, tp: &str, drv: &str) -> Case {
+    let nbufs = *rng.pick(&[2u16, 4, 8]);
+    let buflen = *rng.pick(&[256usize, 512, 4096]);
+    let tos = tp == "udp" && rng.chance(1, 4);
+    let mut lines = vec![format!("open {tp} {drv} {nbufs} {buflen}{}", if tos { " tos" } else { "" })];
+    let nops = rng.range(3, 14);
+    let multi_case = rng.chance(1, 2);
+    let mut pend = [0usize; 2]; // datagrams in flight per sender
+    for _ in 0..nops {
+        let p = rng.below(2) as usize;
+        let pn = ["a", "b"][p];
+        let d = 1 - p;
+        if rng.chance(1, 2) && pend[p] < 6 {
+            let kinds: &[&str] = if tp == "udp" {
+                &["plain", "vec", "to", "tovec", "msg", "msgvec", "zc", "zcvec", "tozc", "tozcvec", "msgzc", "msgzcvec"]
+            } else {
+                &["plain", "vec", "zc", "zcvec"]
+            };
+            let kind = *rng.pick(kinds);
+            let max = *rng.pick(&[8usize, 100, 700, 6000]);
+            let mut ch = gen_chunks(rng, kind.contains("vec"), max);
+            if multi_case && ch.split(',').all(|h| h == "-") {
+                ch = "5a".into();
+            }
+            pend[p] += 1;
+            lines.push(format!("dsend {pn} {kind} {ch}"));
+        } else {
+            match rng.below(10) {
+                0..=1 if multi_case => {
+                    let kind = *rng.pick(&["multi", "frommulti", "msgmulti"]);
+                    let clen = if kind == "msgmulti" { *rng.pick(&[0usize, 32, 64]) } else { 0 };
+                    lines.push(format!("dmulti {pn} {kind} {clen}"));
+                    pend[d] = 0;
+                }
+                2..=3 => {
+                    let kinds: &[&str] = if tp == "udp" { &["managed", "frommanaged", "msgmanaged"] } else { &["managed"] };
+                    let len = *rng.pick(&[0usize, 0, 3, 100, 100000]);
+                    lines.push(format!("drecvm {pn} {} {len}", rng.pick(kinds)));
+                    pend[d] = pend[d].saturating_sub(1);
+                }
+                _ => {
+                    let kinds: &[&str] = if tp == "udp" { &["plain", "vec", "from", "fromvec", "msg", "msgvec"] } else { &["plain", "vec"] };
+                    let kind = *rng.pick(kinds);
+                    let max = *rng.pick(&[4usize, 64, 800, 7000]);
+                    let shapes = if kind.contains("vec") {
+                        let k = rng.range(1, 4);
+                        let fresh = rng.chance(9, 10);
+                        (0..k)
+                            .map(|_| if fresh { format!("v{}:-", rng.range(0, max as u64)) } else { gen_shape(rng, max, true) })
+                            .collect::<Vec<_>>()
+                            .join(";")
+                    } else {
+                        gen_shape(rng, max, true)
+                    };
+                    lines.push(format!("drecv {pn} {kind} {shapes}"));
+                    pend[d] = pend[d].saturating_sub(1);
+                }
+            }
+        }
+    }
+    Case { name: format!("lock-{tp}-{drv}-{idx}"), lines }
+}
+
+fn gen_conc(rng: &mut Rng, idx: usize, tp: &str, drv: &str, big: bool) -> Case {
+    let nbufs = *rng.pick(&[2u16, 4, 8, 16]);
+    let buflen = *rng.pick(&[64usize, 1024, 4096, 65536]);
+    let seed = rng.below(256);
+    let split = if rng.chance(1, 3) { "split" } else { "whole" };
+    let sendspec = |rng: &mut Rng| -> String {
+        if rng.chance(1, 8) {
+            return "-".into();
+        }
+        let k = rng.range(1, 6);
+        (0..k)
+            .map(|_| {
+                let kind = *rng.pick(&["plain", "plain", "vec", "zc", "zcvec", "msg", "msgvec", "half"]);
+                let max: u64 = if big { *rng.pick(&[2000u64, 70000, 300000, 900000]) } else { *rng.pick(&[10u64, 300, 5000, 40000]) };
+                let parts = if kind.contains("vec") { rng.range(1, 4) } else { 1 };
+                let sizes: Vec<String> = (0..parts).map(|_| (if rng.chance(1, 10) { 0 } else { rng.range(1, max) }).to_string()).collect();
+                format!("{kind}:{}", sizes.join("+"))
+            })
+            .collect::<Vec<_>>()
+            .join(",")
+    };
+    let sa = sendspec(rng);
+    let sb = sendspec(rng);
+    // keep the number of receive calls bounded: small buffers only for small transfers
+    let total = |spec: &str| -> u64 {
+        if spec == "-" {
+            return 0;
+        }
+        spec.split(',').map(|it| it.split(':').nth(1).unwrap().split('+').map(|n| n.parse::<u64>().unwrap()).sum::<u64>()).sum()
+    };
+    let pool_floor = |t: u64| -> bool { t / (buflen as u64) <= 4000 };
+    let recvspec = |rng: &mut Rng, incoming: u64| -> String {
+        let floor = (incoming / 3000).max(1);
+        let k = rng.range(1, 4);
+        let mut items: Vec<String> = (0..k)
+            .map(|_| {
+                let mut kind = *rng.pick(&["plain", "plain", "vec", "half", "msg", "msgvec", "managed"]);
+                if kind == "managed" && !pool_floor(incoming) {
+                    kind = "plain";
+                }
+                let max: u64 = (*rng.pick(&[7u64, 200, 5000, 100000])).max(floor * 2);
+                if kind == "managed" {
+                    format!("managed:{}", rng.pick(&[0u64, 0, 100000]))
+                } else {
+                    let parts = if kind.contains("vec") { rng.range(1, 4) } else { 1 };
+                    let sizes: Vec<String> = (0..parts).map(|_| rng.range(floor, max).to_string()).collect();
+                    format!("{kind}:{}", sizes.join("+"))
+                }
+            })
+            .collect();
+        if rng.chance(1, 4) && pool_floor(incoming) {
+            items.push(format!("multi:{}", rng.pick(&[0u64, 0, 100000])));
+        }
+        items.join(",")
+    };
+    let ra = recvspec(rng, total(&sb));
+    let rb = recvspec(rng, total(&sa));
+    Case {
+        name: format!("conc-{tp}-{drv}-{idx}"),
+        lines: vec![format!("conc {tp} {drv} {nbufs} {buflen} {seed} {split} SA={sa} SB={sb} RA={ra} RB={rb}")],
+    }
+}
+
+fn gen_accept(rng: &mut Rng, idx: usize, tp: &str, drv: &str) -> Case {
+    let mode = *rng.pick(&["single", "incoming", "incoming"]);
+    let k = rng.range(1, 6);
+    let extra = rng.below(3);
+    Case { name: format!("accept-{tp}-{drv}-{idx}"), lines: vec![format!("accept {tp} {drv} {mode} {k} {extra}")] }
+}
+
+fn le4(v: u32) -> Vec<u8> {
+    v.to_le_bytes().to_vec()
+}
+
+fn gen_rmo(rng: &mut Rng, idx: usize) -> Case {
+    let buflen = 512usize;
+    let mut lines = vec![format!("rmopen {buflen}")];
+    for _ in 0..rng.range(4, 10) {
+        let clen = *rng.pick(&[0usize, 0, 16, 24, 64, 200]);
+        let hostile = rng.chance(1, 2);
+        let namelen = *rng.pick(&[0usize, 16, 16, 28, 110, 128]);
+        let ctl = rng.below(clen as u64 + 1) as usize;
+        let room = buflen.saturating_sub(144 + clen);
+        let payload = rng.below(room.min(64) as u64 + 1) as usize;
+        let flags = *rng.pick(&[0u32, 0x20, 0x28, 0x8000_0000]);
+        let mut hdr = (namelen as u32, ctl as u32, payload as u32, flags);
+        let mut total = 144 + clen + payload;
+        let mut clen_arg = clen;
+        if hostile {
+            match rng.below(7) {
+                0 => hdr.0 = *rng.pick(&[129u32, 200, 0xffff_ffff]),
+                1 => hdr.1 = rng.below(400) as u32,
+                2 => hdr.2 = *rng.pick(&[payload as u32 + 1, 1000, 0xffff_ffff]),
+                3 => total = rng.below(total as u64 + 1) as usize,
+                4 => total = rng.below(20) as usize,
+                5 => clen_arg = *rng.pick(&[usize::MAX, usize::MAX - 100, 1 << 40, clen + 1, clen.saturating_sub(1)]),
+                _ => hdr.1 = clen as u32 + 1 + rng.below(payload as u64 + 1) as u32,
+            }
+        }
+        let total = total.min(buflen);
+        let mut bytes = [le4(hdr.0), le4(hdr.1), le4(hdr.2), le4(hdr.3)].concat();
+        let body = rng.bytes(buflen);
+        bytes.extend_from_slice(&body);
+        bytes.truncate(total);
+        lines.push(format!("rmo {clen_arg} {}", hex(&bytes)));
+    }
+    Case { name: format!("rmo-{idx}"), lines }
+}
+
+fn gen_ms(rng: &mut Rng, idx: usize, tp: &str, drv: &str) -> Case {
+    let nbufs = *rng.pick(&[1u16, 2, 2, 4]);
+    let buflen = *rng.pick(&[8usize, 16, 64]);
+    let len = *rng.pick(&[0usize, 0, 5, 1000]);
+    let chunk = if len == 0 { buflen } else { len.min(buflen) };
+    let mut evs: Vec<String> = vec![];
+    // bookkeeping that keeps the script away from timing-dependent corners:
+    // `queued` = bytes sent and not yet yielded
+    let mut queued = 0usize;
+    let mut shut = false;
+    let mut cancelled = false;
+    let mut holding = false;
+    let mut ended = false;
+    for _ in 0..rng.range(3, 12) {
+        if ended {
+            break;
+        }
+        match rng.below(10) {
+            0..=3 if !shut && queued < 200 => {
+                let n = rng.range(1, (chunk * 3) as u64) as usize;
+                evs.push(format!("d{}", hex(&rng.bytes(n))));
+                queued += n;
+            }
+            4 if !shut && rng.chance(1, 3) => {
+                evs.push("s".into());
+                shut = true;
+            }
+            5 if !cancelled && rng.chance(1, 3) => {
+                evs.push("c".into());
+                cancelled = true;
+            }
+            6 if !holding => {
+                evs.push("h".into());
+                holding = true;
+            }
+            7 if holding => {
+                evs.push("r".into());
+                holding = false;
+            }
+            _ => {
+                if queued > 0 || shut || cancelled {
+                    evs.push("n".into());
+                    queued = queued.saturating_sub(chunk);
+                    if cancelled && rng.chance(1, 2) {
+                        evs.push("n".into());
+                        evs.push("n".into());
+                        ended = true;
+                    }
+                } else if rng.chance(1, 4) {
+                    evs.push("p".into());
+                }
+            }
+        }
+    }
+    evs.push("n".into());
+    if !(queued > 0 || shut || cancelled) {
+        evs.pop();
+        evs.push("p".into());
+    }
+    Case { name: format!("ms-{tp}-{drv}-{idx}"), lines: vec![format!("ms {tp} {drv} {nbufs} {buflen} {len} {}", evs.join(","))] }
+}
+
 fn generate(tier: &str, rng: &mut Rng) -> Vec<Case> {
     let scale = if tier == "thorough" { 8 } else { 1 };
     let mut cases = vec![];
     let mut idx = 0;
-    for _ in 0..(120 * scale) {
+    for _ in 0..(80 * scale) {
         for tp in ["tcp", "unix"] {
             for drv in ["uring", "poll"] {
                 idx += 1;
                 cases.push(gen_lock_stream(&mut rng.fork(), idx, tp, drv));
             }
         }
+    }
+    for _ in 0..(15 * scale) {
+        for tp in ["tcp", "unix"] {
+            for drv in ["uring", "poll"] {
+                idx += 1;
+                cases.push(gen_accept(&mut rng.fork(), idx, tp, drv));
+                idx += 1;
+                cases.push(gen_ms(&mut rng.fork(), idx, tp, drv));
+            }
+        }
+    }
+    for _ in 0..(60 * scale) {
+        idx += 1;
+        cases.push(gen_rmo(&mut rng.fork(), idx));
+    }
+    for k in 0..(20 * scale) {
+        for tp in ["tcp", "unix"] {
+            for drv in ["uring", "poll"] {
+                idx += 1;
+                cases.push(gen_conc(&mut rng.fork(), idx, tp, drv, k % 3 == 0));
+            }
+        }
+    }
+    for _ in 0..(80 * scale) {
+        for tp in ["udp", "udg"] {
+            for drv in ["uring", "poll"] {
+                idx += 1;
+                cases.push(gen_lock_dgram(&mut rng.fork(), idx, tp, drv));
+            }
+        }
+    }
+    // debugging aid: C14_ONLY=<prefix> keeps the cases whose name starts with the prefix
+    if let Ok(only) = std::env::var("C14_ONLY") {
+        cases.retain(|c| c.name.starts_with(&only));
     }
     cases
 }
@@ -862,6 +2048,4 @@ fn main() {
 }
 
 #[allow(dead_code)]
-fn _unused(_: UdpSocket, _: Rc<()>) {
-    let _ = unsafe { UdpSocket::from_raw_fd(-1) };
-}
+fn _unused(_: Rc<()>) {}
